@@ -130,7 +130,9 @@ class ColangParser:
             result["flows"].append(data)
         else:
             # Otherwise, it's a sequence and we take all the flow elements and return them
-            for element in data["elements"]:
+            # (a file that consists of one import statement is that statement itself)
+            elements = [data] if isinstance(data, Import) else data["elements"]
+            for element in elements:
                 if element["_type"] == "flow":
                     element.file_info["exclude_from_llm"] = exclude_flows_from_llm
                     result["flows"].append(element)
